@@ -3,7 +3,9 @@ package envsched
 import (
 	"context"
 	"fmt"
+	"runtime"
 	"slices"
+	"strings"
 	"sync"
 	"testing"
 	"testing/synctest"
@@ -594,5 +596,169 @@ func progsJoinBulky(t *testing.T, prop string) {
 	}
 	for _, k := range []int{8, 4200} {
 		runProg(t, prop, &caseT{Stage: "prog/join-quiet-feeds-bulky", N: k})
+	}
+}
+
+// ---------------------------------------------------------------- a callback that ends its goroutine (runtime.Goexit)
+
+// t.Fatal, t.FailNow, t.Skip and the require.* helpers end the calling goroutine with runtime.Goexit; inside a stage
+// callback that goroutine is the stage's (or a worker's). It is gone then - without a panic - so what the statement
+// says about a stage whose goroutines have exited applies: every returned channel closes, nothing else stays behind,
+// and in a fork stage the other workers finish the input.
+func init() {
+	progs["callback-goexit"] = func(c *caseT) string {
+		ctx, cancel := context.WithCancel(context.Background())
+		defer cancel()
+		xs := seqInts(1, c.N)
+		k := c.Delay // the element (or index) at which the callback leaves
+		f := func(x int) (int, error) {
+			if x == k {
+				runtime.Goexit()
+			}
+			return x * 10, nil
+		}
+		pred := func(x int) bool {
+			if x == k {
+				runtime.Goexit()
+			}
+			return x%2 == 1
+		}
+		var vals []<-chan int
+		var errs []<-chan error
+		var dones []<-chan struct{}
+		forked := false
+		switch c.Arg {
+		case "Map":
+			o, e := pipe.Map(ctx, pipe.Seq(xs...), pipe.Lift(f))
+			vals, errs = append(vals, o), append(errs, e)
+		case "FMap":
+			o, e := pipe.FMap(ctx, pipe.Seq(xs...), pipe.LiftF(func(ctx context.Context, x int, out chan<- int) error {
+				v, _ := f(x)
+				out <- v
+				return nil
+			}))
+			vals, errs = append(vals, o), append(errs, e)
+		case "Filter":
+			vals = append(vals, pipe.Filter(ctx, pipe.Seq(xs...), pipe.Pure(pred)))
+		case "TakeWhile":
+			vals = append(vals, api.TakeWhile(ctx, pipe.Seq(xs...), func(x int) bool { pred(x); return true }))
+		case "Partition":
+			l, r := pipe.Partition(ctx, pipe.Seq(xs...), pipe.Pure(pred))
+			vals = append(vals, l, r)
+		case "ForEach":
+			dones = append(dones, pipe.ForEach(ctx, pipe.Seq(xs...), pipe.Pure(func(x int) int { v, _ := f(x); return v })))
+		case "Fold":
+			vals = append(vals, pipe.Fold(ctx, pipe.Seq(xs...), monoid.FromOp(0, func(a, b int) int {
+				if b == k {
+					runtime.Goexit()
+				}
+				return a + b
+			})))
+		case "Emit":
+			o, e := api.Emit(ctx, c.Cap, time.Millisecond, "lift", func(i int) (int, error) { return f(i + 1) })
+			vals, errs = append(vals, o), append(errs, e)
+		case "Unfold":
+			o, e := api.Unfold(ctx, c.Cap, 1, "lift", func(x int) (int, error) { f(x); return x + 1, nil })
+			vals, errs = append(vals, o), append(errs, e)
+		case "fork.Map":
+			forked = true
+			o, e := fork.Map(ctx, c.Par, fork.Seq(xs...), fork.Lift(f))
+			vals, errs = append(vals, o), append(errs, e)
+		case "fork.Filter":
+			forked = true
+			vals = append(vals, fork.Filter(ctx, c.Par, fork.Seq(xs...), fork.Pure(pred)))
+		case "fork.ForEach":
+			forked = true
+			dones = append(dones, fork.ForEach(ctx, c.Par, fork.Seq(xs...), fork.Pure(func(x int) int { v, _ := f(x); return v })))
+		case "fork.Fold":
+			forked = true
+			vals = append(vals, fork.Fold(ctx, c.Par, fork.Seq(xs...), monoid.FromOp(0, func(a, b int) int {
+				if b == k {
+					runtime.Goexit()
+				}
+				return a + b
+			})))
+		}
+		// consumers drain everything concurrently; every channel has to close
+		var wg sync.WaitGroup
+		got := make([][]int, len(vals))
+		for i, ch := range vals {
+			wg.Add(1)
+			go func(i int, ch <-chan int) {
+				defer wg.Done()
+				for v := range ch {
+					got[i] = append(got[i], v)
+					if len(got[i]) > c.N+20 {
+						if c.Arg != "Emit" && c.Arg != "Unfold" {
+							return
+						}
+					}
+				}
+			}(i, ch)
+		}
+		for _, ch := range errs {
+			wg.Add(1)
+			go func(ch <-chan error) {
+				defer wg.Done()
+				for range ch {
+				}
+			}(ch)
+		}
+		for _, ch := range dones {
+			wg.Add(1)
+			go func(ch <-chan struct{}) {
+				defer wg.Done()
+				for range ch {
+				}
+			}(ch)
+		}
+		wg.Wait() // (a channel that never closes ends as the bubble's deadlock)
+		synctest.Wait()
+		if g := libCensus(); len(g) > 0 {
+			return fmt.Sprintf("%s: the callback left its goroutine at element %d; %d library goroutines stay behind, e.g.\n%s", c.Arg, k, len(g), g[0])
+		}
+		if forked && c.Par > 1 && (c.Arg == "fork.Map" || c.Arg == "fork.Filter") {
+			n := 0
+			for _, g := range got {
+				n += len(g)
+			}
+			want := 0
+			for _, x := range xs {
+				if x != k && (c.Arg == "fork.Map" || x%2 == 1) {
+					want++
+				}
+			}
+			if n != want {
+				return fmt.Sprintf("%s (par %d): one worker left at element %d; %d results delivered, the other workers owe %d", c.Arg, c.Par, k, n, want)
+			}
+		}
+		return ""
+	}
+}
+
+func progsGoexit(t *testing.T, prop string) {
+	stages := map[string][]string{
+		"C06": {"Map", "FMap", "Filter", "TakeWhile", "Partition", "ForEach", "Fold", "Emit", "Unfold"},
+		"C09": {"fork.Map", "fork.Filter", "fork.ForEach"},
+	}[prop]
+	for _, st := range stages {
+		for _, n := range []int{1, 6} {
+			for _, k := range []int{1, 3, n} {
+				if k > n {
+					continue
+				}
+				for _, par := range []int{1, 3} {
+					if !strings.HasPrefix(st, "fork.") && par > 1 {
+						continue
+					}
+					for _, v := range []string{"", "fork"} {
+						if v == "fork" && st != "Emit" && st != "Unfold" && st != "TakeWhile" {
+							continue
+						}
+						runProg(t, prop, &caseT{Stage: "prog/callback-goexit", Arg: st, N: n, Delay: k, Par: par, Cap: 1, Comment: v})
+					}
+				}
+			}
+		}
 	}
 }
